@@ -8,6 +8,8 @@
     source and of numpy.linspace) and [qops] = exact rationals.  Block values (genotype . effects) are exact
     rationals (inputs are generated on dyadic grids where the binary64 sums are exact).
     An element of the (m,n,b,t) array that the code never writes (numpy.empty) is [None].
+    haplobin includes its repair pass ([spread_loop]; defect C18-empty-bin, repaired in the library): the former code
+    (bare equal-width bins) is [old_haplobin] in Proofs/C18_Haplo.v, kept as a regression witness.
     Definitions only. *)
 From Coq Require Import PrimFloat Uint63.
 From PV Require Import Lib.Common Lib.FloatK.
@@ -88,6 +90,24 @@ Fixpoint bin_label (hb : list T) (x : T) (k : nat) (acc : option nat) : option n
                 | hi :: _ => bin_label tl x (S k) (if o_leb O lo x && o_leb O x hi then Some k else acc)
                 end
   end.
+(** the pass over the markers of one chromosome that follows the bins (repair of the empty-bin defect):
+      prev = k - nhap - 1
+      for m in range(stix, spix): prev = min(max(haplobin[m], prev, k - (spix - m)), prev + 1); haplobin[m] = prev
+    [k] is the label after the chromosome's last bin, [rem] = spix - m.  Python integers: [Z] (prev starts at -1 on
+    the first chromosome).  A label that was never written holds whatever numpy.empty found, and so does everything
+    computed from it: [None] from there on. *)
+Fixpoint spread_loop (k : Z) (prev : option Z) (rem : nat) (l : list (option nat)) : list (option nat) :=
+  match l with
+  | [] => []
+  | x :: r =>
+      let v := match prev, x with
+               | Some p, Some xv => Some (Z.min (Z.max (Z.max (Z.of_nat xv) p) (k - Z.of_nat rem)) (p + 1))
+               | _, _ => None
+               end in
+      option_map Z.to_nat v :: spread_loop k v (rem - 1) r
+  end.
+Definition spread (k nhap st sp : nat) (lab : list (option nat)) : list (option nat) :=
+  spread_loop (Z.of_nat k) (Some (Z.of_nat k - Z.of_nat nhap - 1)%Z) (sp - st) lab.
 Fixpoint haplobin_loop (gp : list T) (chroms : list (nat * (nat * nat))) (k : nat) (out : list (option nat))
   : list (option nat) :=
   match chroms with
@@ -95,7 +115,7 @@ Fixpoint haplobin_loop (gp : list T) (chroms : list (nat * (nat * nat))) (k : na
   | (nhap, (st, sp)) :: rest =>
       let hb := linspace (nth st gp z) (nth (sp - 1) gp z) nhap in
       let lab := map2 (fun x cur => bin_label hb x k cur) (slice st sp gp) (slice st sp out) in
-      haplobin_loop gp rest (k + nhap) (write st sp lab out)
+      haplobin_loop gp rest (k + nhap) (write st sp (spread (k + nhap) nhap st sp lab) out)
   end.
 (** numpy.empty(len(genpos)) is all [None]; the chromosomes write their slices *)
 Definition haplobin (nblk : list nat) (gp : list T) (stix spix : list nat) : list (option nat) :=
@@ -219,6 +239,13 @@ Definition gb_latent (nb nt nbest : nat) (hm : hmat_t) (x : list nat) : list (op
 (** ** comparison helpers for the correspondence shards *)
 Definition natl_opt_agree (model : list (option nat)) (impl : list nat) : bool :=
   list_eqb (opt_eqb Nat.eqb) model (map Some impl).
+(** labels of an invalid (unsorted) layout: a label that depends on unwritten memory ([None]) is not compared *)
+Fixpoint lab_agree (model : list (option nat)) (impl : list nat) : bool :=
+  match model, impl with
+  | [], [] => true
+  | a :: m', b :: i' => match a with Some x => Nat.eqb x b | None => true end && lab_agree m' i'
+  | _, _ => false
+  end.
 Definition res_eqb {A} (eqb : A -> A -> bool) (a b : res A) : bool :=
   match a, b with Ok x, Ok y => eqb x y | Err e1, Err e2 => err_eqb e1 e2 | _, _ => false end.
 Definition bounds_eqb (a b : list nat * list nat * list nat) : bool :=
